@@ -247,6 +247,11 @@ structure PbGroup where
   groupHeight : Option Nat
   deriving Repr, DecidableEq, Inhabited
 
+structure PbMember where
+  id : Option Bytes
+  pubKey : Option Bytes
+  deriving Repr, DecidableEq, Inhabited
+
 /-! ### decoders -/
 
 def txHashOfRaws (rs : List Raw) : PbTxHash := ⟨lastLen 1 rs, lastLen 2 rs⟩
@@ -340,6 +345,19 @@ def decGroup (bs : Bytes) : Option PbGroup :=
                signature := lastLen 4 rs, members := allLen 5 rs, groupHeight := lastVint 6 rs }
     else none
 
+def memberReq (rs : List Raw) : Bool := hasLen 1 rs && hasLen 2 rs
+
+def decMember (bs : Bytes) : Option PbMember :=
+  match parseRaw bs with
+  | none => none
+  | some rs => if memberReq rs then some ⟨lastLen 1 rs, lastLen 2 rs⟩ else none
+
+/-- `GroupSlice { repeated Group Groups = 1 }`, the argument of `PbToGroups`. -/
+def decGroupSlice (bs : Bytes) : Option (List PbGroup) :=
+  match parseRaw bs with
+  | none => none
+  | some rs => mapM' decGroup (allLen 1 rs)
+
 /-! ### encoders (`proto.Marshal`: fields in tag order, nil pointers / nil slices omitted) -/
 
 def rawsOfTxHash (p : PbTxHash) : List Raw := optLenR 1 p.hash ++ optLenR 2 p.subHash
@@ -380,5 +398,11 @@ def rawsOfGroup (p : PbGroup) : List Raw :=
   optLenR 3 p.pubKey ++ optLenR 4 p.signature ++ repLenR 5 p.members ++ optVintR 6 p.groupHeight
 
 def encGroup (p : PbGroup) : Bytes := encRaws (rawsOfGroup p)
+
+def rawsOfMember (p : PbMember) : List Raw := optLenR 1 p.id ++ optLenR 2 p.pubKey
+
+def encMember (p : PbMember) : Bytes := encRaws (rawsOfMember p)
+
+def encGroupSlice (ps : List PbGroup) : Bytes := encRaws (repLenR 1 (ps.map encGroup))
 
 end Rangers.Wire
